@@ -1087,3 +1087,404 @@ def translate_module(module_name, specs, repo):
     with open(path) as fh:
         src = fh.read()
     return translate_source(src, specs, module_name, os.path.relpath(path, os.path.abspath(repo)))
+
+
+# ------------------------------------------------------------------------------------------------ self-test
+# CPython (the REAL IndexedSet methods on real objects built from abstract states) vs the generated definitions, on
+# reachable and corrupted states: result / exception class AND the whole object state after the call (the dict, the two
+# lists, the interval cells reachable from `dead_indices`), up to renaming of addresses; garbage cells are ignored.
+_EXC = ['KeyError', 'ValueError', 'TypeError', 'IndexError', 'ZeroDivisionError', 'StopIteration', 'RecursionError',
+        'Other', 'OutOfFuel']          # constructor order of PyExc
+
+_DRIVER = r'''
+namespace C11SelfTest
+open PyHeap PyRtC11 Src.setutils
+
+abbrev P := StateT (List Int) Option
+def pInt : P Int := fun l => match l with | x :: xs => some (x, xs) | [] => none
+def pRep {α : Type} (p : P α) : Nat → P (List α)
+  | 0 => pure []
+  | n + 1 => do let x ← p; let xs ← pRep p n; pure (x :: xs)
+def pList {α : Type} (p : P α) : P (List α) := do let n ← pInt; pRep p n.toNat
+def pVal : P (Val Int Unit) := do
+  let t ← pInt; let x ← pInt
+  match t with
+  | 0 => pure .none | 1 => pure .sentinel | 2 => pure (.ref x.toNat) | 3 => pure (.key x) | 5 => pure (.int x)
+  | _ => failure
+def pOpt : P (Option Int) := do let f ← pInt; let x ← pInt; pure (if f = 0 then none else some x)
+def pState : P (IndexedSet.St Int) := do
+  let cells ← pList (pList pVal)
+  let d ← pList (do let k ← pInt; let v ← pInt; pure (k, v))
+  let il ← pList pVal
+  let dl ← pList pVal
+  let c ← pInt; let m ← pInt
+  pure ⟨⟨cells⟩, d, il, dl, c, m⟩
+
+def eVal : Val Int Unit → List Int
+  | .none => [0, 0] | .sentinel => [1, 0] | .ref a => [2, a] | .key k => [3, k] | .val _ => [4, 0] | .int i => [5, i]
+def eList {α : Type} (e : α → List Int) (l : List α) : List Int := (l.length : Int) :: l.flatMap e
+def eState (st : IndexedSet.St Int) : List Int :=
+  eList (eList eVal) st.heap.cells ++ eList (fun (p : Int × Int) => [p.1, p.2]) st.item_index_map ++
+  eList eVal st.item_list ++ eList eVal st.dead_indices ++ [st.compactions, st.c_max_size]
+def eExc (e : PyExc) : Int := match e with
+  | .KeyError => 0 | .ValueError => 1 | .TypeError => 2 | .IndexError => 3 | .ZeroDivisionError => 4
+  | .StopIteration => 5 | .RecursionError => 6 | .Other => 7 | .OutOfFuel => 8
+def eRes {α : Type} (e : α → List Int) (r : Except PyExc α) : List Int := match r with
+  | .ok v => 1 :: e v
+  | .error x => [0, eExc x]
+
+def runLine (toks : List Int) : Option (List Int) :=
+  (do
+    let m ← pInt
+    let st ← pState
+    (%DISPATCH% : P (List Int))
+    : P (List Int)).run toks |>.map (·.1)
+
+partial def loop (h : IO.FS.Stream) : IO Unit := do
+  let ln ← h.getLine
+  if ln.isEmpty then return
+  let toks := (ln.splitOn " ").filterMap (fun t => (t.replace "\n" "").toInt?)
+  match runLine toks with
+  | some out => IO.println ("R " ++ " ".intercalate (out.map toString))
+  | none => IO.println "R bad"
+  loop h
+end C11SelfTest
+
+def main : IO Unit := do C11SelfTest.loop (← IO.getStdin)
+'''
+
+_P_ARG = {INT: 'pInt', OPTINT: 'pOpt', BOOL: '(do let b ← pInt; pure (decide (b ≠ 0)))', KEY: 'pInt', VAL: 'pVal'}
+_E_RES = {UNIT: '(fun _ => [])', INT: '(fun (i : Int) => [i])', VAL: 'eVal', BOOL: '(fun (b : Bool) => [if b then 1 else 0])'}
+
+
+def build_driver(specs, repo, fuel=10000):
+    import srctie_specs
+    text, infos = translate_module(specs[0]['module'], [sp for sp in srctie_specs.SPECS['C11'] if sp.get('translator') == 'py2lean_c11'], repo)
+    bad = [i for i in infos if i.get('error')]
+    emitted = translate_source.last
+    body = text.split('import BoltonsVerif.PyRtC11', 1)[1]
+    disp = []
+    for n, sp in enumerate(specs):
+        if sp['lean_name'] not in emitted:
+            continue
+        info = emitted[sp['lean_name']]
+        binds = ''.join('let a%d ← %s; ' % (i, _P_ARG[t]) for i, (f, t) in enumerate(info['vars']))
+        args = ''.join(' a%d' % i for i in range(len(info['vars'])))
+        call = '%s %s st%s' % (sp['lean_name'], ('%d' % fuel) if info['fuel'] else '', args)
+        if info['mutates']:
+            out = 'let r := %s; pure (eRes %s r.1 ++ eState r.2)' % (call, _E_RES[sp['result']])
+        else:
+            out = 'let r := %s; pure (eRes %s r ++ eState st)' % (call, _E_RES[sp['result']])
+        disp.append('if m = %d then (do %s%s) else' % (n, binds, out))
+    src = 'import BoltonsVerif.PyRtC11\n' + body + _DRIVER.replace('%DISPATCH%', '\n    '.join(disp) + ' failure')
+    return src, [sp for sp in specs if sp['lean_name'] in emitted], bad
+
+
+# ---- abstract states: {'cells': [[val]], 'dict': [(k, v)], 'items': [val], 'dead': [val], 'comp': int, 'cmax': int}
+# val = ('none',) | ('sent',) | ('ref', a) | ('key', k) | ('int', i)
+_TAG = {'none': 0, 'sent': 1, 'ref': 2, 'key': 3, 'int': 5}
+
+
+def _enc_val(v, toks):
+    toks += [_TAG[v[0]], v[1] if len(v) > 1 else 0]
+
+
+def _enc_state(st, toks):
+    toks.append(len(st['cells']))
+    for c in st['cells']:
+        toks.append(len(c))
+        for v in c:
+            _enc_val(v, toks)
+    toks.append(len(st['dict']))
+    for k, v in st['dict']:
+        toks += [k, v]
+    for key in ('items', 'dead'):
+        toks.append(len(st[key]))
+        for v in st[key]:
+            _enc_val(v, toks)
+    toks += [st['comp'], st['cmax']]
+
+
+def _dec_state(toks):
+    it = iter(toks)
+
+    def val():
+        t, x = next(it), next(it)
+        return {0: ('none',), 1: ('sent',), 2: ('ref', x), 3: ('key', x), 5: ('int', x)}[t]
+
+    def lst(f):
+        return [f() for _ in range(next(it))]
+    cells = lst(lambda: lst(val))
+    d = lst(lambda: (next(it), next(it)))
+    items = lst(val)
+    dead = lst(val)
+    return {'cells': cells, 'dict': d, 'items': items, 'dead': dead, 'comp': next(it), 'cmax': next(it)}, list(it)
+
+
+def canon(st, extra=()):
+    """renumber the cells by a traversal from the roots (`dead_indices`, then `item_list`, then `extra`); drop garbage"""
+    num, order = {}, []
+
+    def visit(v):
+        if v[0] == 'ref' and v[1] not in num:
+            num[v[1]] = len(order)
+            order.append(v[1])
+            for w in (st['cells'][v[1]] if v[1] < len(st['cells']) else []):
+                visit(w)
+    for v in list(st['dead']) + list(st['items']) + list(extra):
+        visit(v)
+
+    def ren(v):
+        return ('ref', num[v[1]]) if v[0] == 'ref' else v
+    return {'cells': [[ren(w) for w in st['cells'][a]] for a in order], 'dict': list(st['dict']),
+            'items': [ren(v) for v in st['items']], 'dead': [ren(v) for v in st['dead']], 'comp': st['comp'],
+            'cmax': st['cmax']}
+
+
+def build_object(mod, st):
+    """a REAL IndexedSet whose attributes are the abstract state (shared cells are shared list objects)"""
+    cells = [[] for _ in st['cells']]
+
+    def pv(v, in_cell):
+        if v[0] == 'none':
+            return None
+        if v[0] == 'sent':
+            return mod._MISSING
+        if v[0] == 'ref':
+            return cells[v[1]]
+        return v[1]
+    for c, src in zip(cells, st['cells']):
+        c.extend(pv(v, True) for v in src)
+    obj = mod.IndexedSet()
+    obj.item_index_map = dict(st['dict'])
+    obj.item_list = [pv(v, False) for v in st['items']]
+    obj.dead_indices = [pv(v, False) for v in st['dead']]
+    obj._compactions = st['comp']
+    obj._c_max_size = st['cmax']
+    return obj
+
+
+def read_object(mod, obj):
+    ids, cells = {}, []
+
+    def av(x, in_cell):
+        if x is None:
+            return ('none',)
+        if x is mod._MISSING:
+            return ('sent',)
+        if isinstance(x, list):
+            if id(x) not in ids:
+                ids[id(x)] = len(cells)
+                cells.append(None)
+                cells[ids[id(x)]] = [av(y, True) for y in x]
+            return ('ref', ids[id(x)])
+        if type(x) is int:
+            return ('int', x) if in_cell else ('key', x)
+        raise ValueError('unencodable %r' % (x,))
+    dead = [av(x, True) if not isinstance(x, list) else av(x, True) for x in obj.dead_indices]
+    items = [av(x, False) for x in obj.item_list]
+    return {'cells': cells, 'dict': [(k, v) for k, v in obj.item_index_map.items()], 'items': items, 'dead': dead,
+            'comp': obj._compactions, 'cmax': obj._c_max_size}
+
+
+def _reachable_state(mod, rng):
+    s = mod.IndexedSet(range(rng.randrange(0, 14)))
+    for _ in range(rng.randrange(0, 12)):
+        if len(s) and rng.random() < 0.75:
+            s.remove(rng.choice(list(s)))
+        else:
+            s.add(rng.randrange(0, 40))
+    return read_object(mod, s)
+
+
+def _random_table(rng):
+    """an arbitrary object state around a random interval table (sorted or not, overlapping or not, sometimes corrupted)"""
+    n = rng.randrange(0, 7)
+    cells, dead = [], []
+    pos = 0
+    for _ in range(n):
+        if rng.random() < 0.8:
+            pos += rng.randrange(0, 4)
+            a = pos
+            b = a + rng.randrange(1, 4)
+            pos = b
+        else:
+            a = rng.randrange(-2, 12)
+            b = rng.randrange(-2, 12)
+        cells.append([('int', a), ('int', b)])
+        dead.append(('ref', len(cells) - 1))
+    r = rng.random()
+    if n and r < 0.06:                      # the same cell twice
+        dead.append(dead[rng.randrange(n)])
+    elif n and r < 0.10:                    # a cell of another length
+        cells[rng.randrange(n)] = [('int', rng.randrange(0, 9))] * rng.choice([0, 1, 3])
+    elif r < 0.14:                          # something that is no list
+        dead.insert(rng.randrange(0, len(dead) + 1), rng.choice([('none',), ('int', 3), ('sent',)]))
+    elif n and r < 0.17:
+        rng.shuffle(dead)
+    elif n and r < 0.19:                    # None inside a cell
+        cells[rng.randrange(n)][rng.randrange(2)] = ('none',)
+    size = max([0] + [v[1] for c in cells for v in c if v[0] == 'int']) + rng.randrange(0, 3)
+    items, d = [], []
+    for i in range(size):
+        if any(len(c) == 2 and c[0][0] == 'int' and c[1][0] == 'int' and c[0][1] <= i < c[1][1] for c in cells):
+            items.append(('sent',))
+        else:
+            items.append(('key', 100 + i))
+            d.append((100 + i, i))
+    return {'cells': cells, 'dict': d, 'items': items, 'dead': dead, 'comp': rng.randrange(0, 3), 'cmax': rng.randrange(0, 20)}
+
+
+def cases_for(sp, mod, rng, quick):
+    n = 700 if quick else 5000
+    out = []
+    if sp['py'] == '_add_dead':
+        for i in range(n):
+            st = _reachable_state(mod, rng) if i % 3 == 0 else _random_table(rng)
+            top = len(st['items']) + 2
+            start = rng.randrange(-1, top + 1)
+            r = rng.random()
+            stop = None if r < 0.7 else start + 1 if r < 0.8 else rng.randrange(-1, top + 2)
+            out.append({'self': st, 'args': [('Int', start), ('Option Int', stop)]})
+    return out
+
+
+def call_real(sp, mod, case):
+    obj = build_object(mod, case['self'])
+    args = [v for _, v in case['args']]
+    try:
+        res = ('ok', getattr(obj, sp['py'])(*args))
+    except Exception as e:  # noqa: BLE001
+        res = ('exc', type(e).__name__)
+    return res, read_object(mod, obj)
+
+
+def _enc_arg(t, v, toks):
+    if t == 'Option Int':
+        toks += [0, 0] if v is None else [1, v]
+    elif t == 'Bool':
+        toks.append(1 if v else 0)
+    elif t == 'Val':
+        _enc_val(v, toks)
+    else:
+        toks.append(v)
+
+
+def selftest(pids, quick=False, seed=0, verbose=True, repo=None):
+    """-> (number of mismatches, report dict) in the format of py2lean_selftest.run"""
+    import random
+    import shutil
+    import subprocess
+    import tempfile
+    import time
+    import srctie_specs
+    import py2lean_selftest
+    from bv import common
+    common.ensure_repo_on_path()
+    t0 = time.time()
+    # the specs of these properties that the BASE translator handles are validated by the base self-test
+    n_all, rep_all = 0, {'_mismatches': []}
+    saved = {}
+    try:
+        for pid in pids:
+            saved[pid] = srctie_specs.SPECS[pid]
+            srctie_specs.SPECS[pid] = [sp for sp in saved[pid] if not sp.get('translator')]
+        base = [pid for pid in pids if srctie_specs.SPECS[pid]]
+        if base:
+            n_all, rep_all = py2lean_selftest.run(base, quick=quick, seed=seed, verbose=verbose)
+    finally:
+        for pid, v in saved.items():
+            srctie_specs.SPECS[pid] = v
+    specs = [sp for pid in pids for sp in srctie_specs.SPECS.get(pid, []) if sp.get('translator') == 'py2lean_c11']
+    mod = importlib.import_module(specs[0]['module'])
+    src, live, bad = build_driver(specs, repo or common.REPO)
+    rng = random.Random('py2lean-c11-selftest-%d' % seed)
+    lines, meta = [], []
+    for n, sp in enumerate(specs):
+        if sp not in live:
+            continue
+        for case in cases_for(sp, mod, rng, quick):
+            toks = [n]
+            _enc_state(case['self'], toks)
+            for t, v in case['args']:
+                _enc_arg(t, v, toks)
+            lines.append(' '.join(map(str, toks)))
+            meta.append((sp, case))
+    tmp = tempfile.mkdtemp(prefix='py2lean-c11-selftest-')
+    try:
+        drv = os.path.join(tmp, 'SrcSelfTestC11.lean')
+        with open(drv, 'w') as fh:
+            fh.write(src)
+        with common.BuildLock():
+            rc, out = common._run(['lake', 'build', 'BoltonsVerif.PyRtC11'])
+        if rc != 0:
+            raise common.InfraError('cannot build BoltonsVerif.PyRtC11: ' + out[-500:])
+        t1 = time.time()
+        p = subprocess.run(['lake', 'env', 'lean', '--run', drv], cwd=common.LEAN, input='\n'.join(lines) + '\n',
+                           stdout=subprocess.PIPE, stderr=subprocess.STDOUT, text=True, timeout=1800)
+        t_lean = time.time() - t1
+    finally:
+        shutil.rmtree(tmp, ignore_errors=True)
+    outs = [ln[2:] for ln in p.stdout.split('\n') if ln.startswith('R ')]
+    if p.returncode != 0 or len(outs) != len(lines):
+        raise common.InfraError('scratch driver failed (rc %s, %d lines for %d inputs): %s' % (
+            p.returncode, len(outs), len(lines), p.stdout[-1500:]))
+    report, mismatches = {}, []
+    for (sp, case), got in zip(meta, outs):
+        r = report.setdefault(sp['lean_name'], {'cases': 0, 'compared': 0, 'python_raises': 0, 'unspecified': 0,
+                                                'mismatches': 0})
+        r['cases'] += 1
+        if got.startswith('bad'):
+            raise common.InfraError('driver rejected a line: %s for %r' % (got, case))
+        val = [int(x) for x in got.split()]
+        (kind, res), after = call_real(sp, mod, case)
+        if val[:2] == [0, 7]:
+            r['unspecified'] += 1           # `Other`: outside what the runtime specifies (non-int objects inside a cell …)
+            continue
+        r['compared'] += 1
+        if kind == 'exc':
+            r['python_raises'] += 1
+            want_res = [0, _EXC.index(res) if res in _EXC else 7]
+        elif sp['result'] == 'None':
+            want_res = [1] if res is None else ['not None: %r' % (res,)]
+        elif sp['result'] == 'Int':
+            want_res = [1, res]
+        elif sp['result'] == 'Bool':
+            want_res = [1, 1 if res else 0]
+        else:
+            want_res = None
+        nres = 2 if val[0] == 0 else 1 + {'None': 0, 'Int': 1, 'Bool': 1, 'Val': 2}[sp['result']]
+        got_res, rest = val[:nres], val[nres:]
+        got_state, tail = _dec_state(rest)
+        ok = not tail
+        if sp['result'] == 'Val' and kind == 'ok':
+            # a returned item: a key (or the sentinel)
+            want_res = [1, 1, 0] if res is mod._MISSING else [1, 3, res] if type(res) is int else ['unencodable']
+        if want_res != got_res or canon(got_state) != canon(after):
+            ok = False
+        if not ok:
+            r['mismatches'] += 1
+            mismatches.append({'function': sp['lean_name'], 'case': repr(case)[:600], 'python': [want_res, canon(after)],
+                               'lean': [got_res, canon(got_state)]})
+    for sp in specs:
+        if sp not in live:
+            report.setdefault(sp['lean_name'], {'cases': 0, 'not_translated': True})
+    if verbose:
+        for k, v in report.items():
+            print('  %-40s %s' % (k, v))
+        print('  py2lean_c11 self-test: %d cases, %d mismatches, %.1f s (lean %.1f s)' % (
+            len(lines), len(mismatches), time.time() - t0, t_lean))
+        for m in mismatches[:5]:
+            print('  MISMATCH', m)
+    rep_all.update(report)
+    rep_all['_mismatches'] = rep_all.get('_mismatches', []) + mismatches
+    return n_all + len(mismatches), rep_all
+
+
+if __name__ == '__main__':
+    import sys
+    sys.path.insert(0, os.path.dirname(os.path.abspath(__file__)))
+    from bv import common as _c
+    _c.ensure_repo_on_path()
+    n, rep = selftest(['C11'], quick='--quick' in sys.argv, seed=0)
+    sys.exit(1 if n else 0)
